@@ -1,43 +1,55 @@
-/- Invariant of the C18 model `Th`. -/
+/- Invariants of the C18 model `Th`. -/
 import YaclibModel.Model.FiberSyncThread
 
 namespace Yaclib.FiberSync.Th
 open Yaclib.FiberSync
 
+@[simp] theorem upd2_same {α : Type} (m : Var → Fid → α) (v : Var) (f : Fid) (x : α) :
+    upd m v (upd (m v) f x) v f = x := by simp [upd]
+
+theorem upd2_apply {α : Type} (m : Var → Fid → α) (v u : Var) (f g : Fid) (x : α) :
+    upd m v (upd (m v) f x) u g = if u = v ∧ g = f then x else m u g := by
+  by_cases hu : u = v
+  · subst hu; by_cases hg : g = f <;> simp [upd, hg]
+  · simp [upd, hu]
+
 structure Inv (s : State) : Prop where
   /-- a fiber whose thread function has returned never runs again -/
   fin_done : ∀ k, s.fin k = true → s.pc k = .done
 
-theorem inv_init (n : Nat) : Inv (init n) := by
+theorem inv_init (inits : Var → Ptr) (n : Nat) : Inv (init inits n) := by
   constructor <;> simp [init]
 
 theorem inv_step {s l s'} (hi : Inv s) (hs : Step s l s') : Inv s' := by
   cases hi
-  cases hs <;> constructor <;> (try simp only [doCopy] at *) <;> grind [upd_apply]
+  cases hs <;> constructor <;> (try simp only [doSet] at *) <;> grind [upd_apply]
 
-theorem inv_reachable {n s} (h : Reachable n s) : Inv s := by
+theorem inv_reachable {inits n s} (h : Reachable inits n s) : Inv s := by
   induction h with
-  | init => exact inv_init n
+  | init => exact inv_init inits n
   | step _ hs ih => exact inv_step ih hs
 
-/-- thread-local pointers: the defaults stay null, a fiber's `q` slot holds what it last assigned to `q`
-    (by pointer or by copy from `p`) -/
-structure TlsInv (s : State) : Prop where
-  def0 : s.def0 = none
-  def1 : s.def1 = none
-  q_own : ∀ f v, s.lastQ f = some v → s.slot1 f = v
-  q_none : ∀ f, s.lastQ f = none → s.slot1 f = none
+/-- thread-local pointers: the defaults are the initialisers for good, and a fiber's slot of a variable is exactly what the
+    fiber itself last assigned to it (no entry iff it never assigned) -/
+structure TlsInv (inits : Var → Ptr) (s : State) : Prop where
+  dflt_init : s.dflt = inits
+  slot_last : ∀ v f, s.slot v f = s.last v f
 
-theorem tls_inv_init (n : Nat) : TlsInv (init n) := by
+theorem tls_inv_init (inits : Var → Ptr) (n : Nat) : TlsInv inits (init inits n) := by
   constructor <;> simp [init]
 
-theorem tls_inv_step {s l s'} (hi : TlsInv s) (hs : Step s l s') : TlsInv s' := by
+theorem tls_inv_step {inits s l s'} (hi : TlsInv inits s) (hs : Step s l s') : TlsInv inits s' := by
   cases hi
-  cases hs <;> constructor <;> (try simp only [doCopy] at *) <;> grind [upd_apply, read0, read1]
+  cases hs <;> constructor <;> (try simp only [doSet] at *) <;> (try assumption) <;>
+    (intro v g; simp only [upd2_apply]; split <;> simp_all)
 
-theorem tls_inv_reachable {n s} (h : Reachable n s) : TlsInv s := by
+theorem tls_inv_reachable {inits n s} (h : Reachable inits n s) : TlsInv inits s := by
   induction h with
-  | init => exact tls_inv_init n
+  | init => exact tls_inv_init inits n
   | step _ hs ih => exact tls_inv_step ih hs
+
+/-- the implementation's read is the specification's read -/
+theorem read_eq_spec {inits s} (hi : TlsInv inits s) (v : Var) (f : Fid) : read s v f = specRead inits s v f := by
+  simp [read, specRead, hi.slot_last v f, hi.dflt_init]
 
 end Yaclib.FiberSync.Th
